@@ -36,6 +36,8 @@ BASES = {
     "interleaved": [("{dir}/{stem}.py", "Python", [16]), ("main.py", "Python", [5]), ("{dir}/b.py", "Python", [31]), ("z.js", "JavaScript", [61]),
                     ("{dir}/e/c.js", "JavaScript", [4]), ("y.py", "Python", [])],
     # the stored line total is a field of its own: 0 with functions, non-zero without, different from the sum (4th item = loc)
+    # numbers beyond 32 and 53 bits (a generated file, a bundle on one line): JSON has no integer limit and neither has the report
+    "big-numbers": [("{stem}.py", "Python", [2 ** 31, 5, 2 ** 31 - 1], 2 ** 40), ("b.js", "JavaScript", [10 ** 12]), ("{dir}/c.java", "Java", [2 ** 53 + 1, 61], 2 ** 63)],
     "odd-loc": [("{stem}.py", "Python", [12, 7], 0), ("b.js", "JavaScript", [], 20), ("{dir}/c.java", "Java", [61], 100), ("{dir}/d.java", "Java", [31], 1)],
 }
 
